@@ -267,6 +267,115 @@ CONTRACTS = [
 ]
 
 
+# ------------------------------------------------------------------ keyword route: an explicit None is an absent child
+def gen_kwroute(rng):
+    """[class name, seed, variant]"""
+    st = _env()
+    return [rng.choice(st["classes"]).__name__, rng.randrange(10 ** 6), rng.choice(["none-for-absent", "none-for-absent", "two-of-a-group", "none-of-a-required-group", "numeric-types"])]
+
+
+def _kw_outcome(C, members, kw):
+    try:
+        with warnings.catch_warnings():
+            warnings.simplefilter("ignore")
+            x = C(*members, **kw)
+        return ("ok", canon(x))
+    except Exception as ex:
+        return ("error", type(ex).__name__)
+
+
+def call_kwroute(it, fn, a):
+    from props.aggclasses import declared_mutexes
+    from contracts.spec import aggregate as SA
+    import decimal
+    cname, seed, variant = a
+    st = _env()
+    C = getattr(models, cname)
+    rng = random.Random(seed)
+    try:
+        inst = Aggregate.from_etree(rich_tree(C, rng))
+    except Exception:
+        return ("agree", "no instance")
+    Types = models.base.Types
+    names = [n for n in C.spec_no_listaggregates if not isinstance(C.spec[n], Types.Unsupported)]
+    kw = {n: getattr(inst, n) for n in names if getattr(inst, n) is not None}
+    members = list(inst)
+    base = _kw_outcome(C, members, kw)
+    if base[0] != "ok":
+        return ("agree", "witness not constructible by keywords")
+    opt, req = declared_mutexes(C)
+    if variant == "none-for-absent":
+        absent = [n for n in names if n not in kw]
+        chosen = [n for n in absent if rng.random() < 0.6]
+        # always the absent members of the groups: that is where a count of keywords instead of values would show
+        chosen += [m for g in list(opt) + list(req) for m in g if m in absent]
+        kw2 = dict(kw); kw2.update({n: None for n in chosen})
+        got = _kw_outcome(C, members, kw2)
+        # (a refusal here - some custom validators test "name in kwargs" - is over-strict, not a constraint violated: not C04's business)
+        if got[0] == "ok" and got != base:
+            return ("explicit-None-is-not-absence", f"{cname}(**{sorted(kw)}) gives {base[0]}; with {sorted(set(chosen))}=None: {got}")
+        return ("agree", "")
+    if variant == "none-of-a-required-group" and req:
+        g = rng.choice(req)
+        kw2 = {k: v for k, v in kw.items() if k not in g}
+        kw2.update({m: None for m in g if rng.random() < 0.7})
+        got = _kw_outcome(C, members, kw2)
+        if got[0] == "ok":
+            return ("required-group-not-enforced", f"{cname} built with none of {g} (explicit None for {[m for m in g if m in kw2]})")
+        return ("agree", "")
+    if variant == "two-of-a-group" and (opt or req):
+        g = rng.choice(list(opt) + list(req))
+        have = [m for m in g if m in kw]
+        others = [m for m in g if m not in kw and m in names]
+        if not others:
+            return ("agree", "")
+        # a second member of the group, with a value taken from another witness of the class
+        for _ in range(10):
+            try:
+                inst2 = Aggregate.from_etree(rich_tree(C, rng))
+            except Exception:
+                continue
+            cand = [m for m in others if getattr(inst2, m) is not None]
+            if cand and have:
+                kw2 = dict(kw); kw2[cand[0]] = getattr(inst2, cand[0])
+                got = _kw_outcome(C, members, kw2)
+                if got[0] == "ok":
+                    return ("group-not-enforced", f"{cname} built with {have[0]} and {cand[0]} of the group {g}")
+                return ("agree", "")
+        return ("agree", "")
+    if variant == "numeric-types":
+        # whole numbers given as Decimal / float to Integer children: the digit limit holds for them as for ints
+        ints = [n for n in names if isinstance(C.spec[n], Types.Integer) and getattr(C.spec[n], "length", None)]
+        if not ints:
+            return ("agree", "")
+        n = rng.choice(ints)
+        big = 10 ** C.spec[n].length
+        for v in (decimal.Decimal(big), float(big), decimal.Decimal(-big)):
+            kw2 = dict(kw); kw2[n] = v
+            got = _kw_outcome(C, members, kw2)
+            if got[0] == "ok":
+                return ("digit-limit-not-enforced", f"{cname}({n}={v!r}) built although {n} is declared with {C.spec[n].length} digits")
+        return ("agree", "")
+    return ("agree", "")
+
+
+class PlainArg(Arg):
+    def __init__(self, name):
+        self.name = name
+
+    def samples(self, rng, n):
+        return [None]
+
+
+CONTRACTS.append(
+    Contract("ofxtools.models.base:Aggregate.__init__", args=[PlainArg("cls"), PlainArg("seed"), PlainArg("variant")],
+             call=call_kwroute, gen=gen_kwroute,
+             ensures=[("keyword-route-enforces-the-declared-constraints", "result[0] == 'agree'")],
+             native_only=True, samples=500,
+             notes="keyword route on random classes: explicit None for absent children (group members always) changes nothing; none of a required group / two of a group are refused; whole numbers beyond the digit limit given as Decimal or float are refused",
+             props=["C04"]))
+
+
 # ------------------------------------------------------------------ C16 companion: flat attribute access on real instances
 def _descendants(x, path=()):
     """(path, holder, attr) for every non-list attribute of every non-repeated descendant"""
